@@ -10,7 +10,7 @@ define("facility_progress(f, n)", "ite(has_skill(f, n) and f.state != BaseFacili
                                   " f.workamount_skill_mean_map[n] / to_real(count_working(f)), 0.0)")
 
 for cls, st, prog in (("BaseWorker", "BaseWorkerState", "worker_progress"), ("BaseFacility", "BaseFacilityState", "facility_progress")):
-    contract(cls + ".has_workamount_skill", props=["C02", "C04"], pure=True,
+    contract(cls + ".has_workamount_skill", props=["C02", "C04"], pure=True, result_is="has_skill(self, task_name)",
              types={"task_name": "Str"}, returns="Bool",
              ensures=[("def", "result == has_skill(self, task_name)")],
              modifies=[])
@@ -31,6 +31,7 @@ for cls, st, prog in (("BaseWorker", "BaseWorkerState", "worker_progress"), ("Ba
              modifies=[])
 
 contract("BaseWorker.has_facility_skill", props=["C04"], pure=True,
+         result_is="facility_name in self.facility_skill_map and self.facility_skill_map[facility_name] > 0.0 + 1e-10",
          types={"facility_name": "Str"}, returns="Bool",
          ensures=[("def", "result == (facility_name in self.facility_skill_map and self.facility_skill_map[facility_name] > 0.0 + 1e-10)")],
          modifies=[])
